@@ -116,7 +116,10 @@ fn synth_frame(sim: &Sim, addrs: &[u16; 2], near: u32, announced: u32) -> RF {
         start: sim.chance(25),
         multi: sim.chance(80),
         id,
-        addr: addrs[sim.draw(2) as usize],
+        addr: match sim.draw(6) {
+            5 => addrs[0] ^ (1u16 << sim.draw(16)),
+            k => addrs[(k % 2) as usize],
+        },
         data_len: dl,
         data,
     }
@@ -143,7 +146,21 @@ pub fn run(sim: &Sim, prop: &str, tier: Tier) -> Outcome {
             src_err = p.is_error;
         }
         match frames_of(&p) {
-            Ok(f) => srcs.push(f),
+            Ok(mut f) => {
+                // some sources are *sparse*: well-formed multi-frame packets whose frames carry
+                // few or no data bytes (legal on the byte links, never produced by the fragmenter)
+                if f.len() >= 2 && sim.draw(12) == 11 {
+                    for fr in f.iter_mut() {
+                        let dl = sim.pick(&[1u8, 0, 2, 1, 0, 8]);
+                        fr.data_len = dl;
+                        for k in dl as usize..8 {
+                            fr.data[k] = 0;
+                        }
+                    }
+                    sim.count("sparse_source_packet");
+                }
+                srcs.push(f)
+            }
             Err(e) => return Outcome::Foreign("C10.encode", e.0),
         }
     }
@@ -270,7 +287,16 @@ pub fn run(sim: &Sim, prop: &str, tier: Tier) -> Outcome {
                     let mut g = *f;
                     match sim.draw(6) {
                         0 => g.not_error = !g.not_error,
-                        1 => g.addr = addrs[1] ^ (sim.draw(2) as u16),
+                        1 => {
+                            // another device: the run's second address, or the packet's own
+                            // address with one bit flipped / its bytes swapped / one byte changed
+                            g.addr = match sim.draw(5) {
+                                0 => addrs[1] ^ (sim.draw(2) as u16),
+                                1 | 2 => model.addr ^ (1u16 << sim.draw(16)),
+                                3 => model.addr.swap_bytes() ^ ((model.addr.swap_bytes() == model.addr) as u16),
+                                _ => model.addr ^ sim.pick(&[0xff00u16, 0x00ff, 0xffff, 0x8001]),
+                            };
+                        }
                         2 => g.start = !g.start,
                         3 => g.multi = !g.multi,
                         4 => {
